@@ -29,14 +29,17 @@ Definition LEV := 4. Definition REV := 5. Definition RY := 6.
 
 (* [seen]: concluded_before of every selector: (selector node, truth branch, set of conclusions, identity of the value of x) *)
 Definition seen_entry := (nat * bool * list nat * nat)%type.
-Record store := { mem : nat -> nat -> list nat; seen : list seen_entry; out : list (list nat * nat) }.
+(* [rootsel]: the node the query descriptor evaluates (the conditions root); fixed during an evaluation *)
+Record store := { mem : nat -> nat -> list nat; seen : list seen_entry; out : list (list nat * nat); rootsel : nat }.
 Definition get (f n : nat) (S : store) : list nat := mem S f n.
 Definition set (f n : nat) (v : list nat) (S : store) : store :=
-  {| mem := fun f' n' => if Nat.eqb f f' && Nat.eqb n n' then v else mem S f' n'; seen := seen S; out := out S |}.
+  {| mem := fun f' n' => if Nat.eqb f f' && Nat.eqb n n' then v else mem S f' n'; seen := seen S; out := out S;
+     rootsel := rootsel S |}.
 Definition getb (f n : nat) (S : store) : bool := match get f n S with [] => false | _ => true end.
 Definition setb (f n : nat) (b : bool) (S : store) : store := set f n (if b then [1] else []) S.
-Definition emit (row : list nat * nat) (S : store) : store := {| mem := mem S; seen := seen S; out := row :: out S |}.
-Definition init : store := {| mem := fun _ _ => []; seen := []; out := [] |}.
+Definition emit (row : list nat * nat) (S : store) : store :=
+  {| mem := mem S; seen := seen S; out := row :: out S; rootsel := rootsel S |}.
+Definition init_root (root : nat) : store := {| mem := fun _ _ => []; seen := []; out := []; rootsel := root |}.
 
 Definition memb (i : nat) (l : list nat) : bool := existsb (Nat.eqb i) l.
 Fixpoint union (a b : list nat) : list nat :=
@@ -50,6 +53,7 @@ Definition concl_now (t : tree) (S : store) : list nat :=
 
 (* ConclusionSelector.update_conclusion (since /repo 35fa150): one coverage index per truth branch AND per set of
    conclusions (frozenset(conclusions)); inside it the key is the binding of x (every conclusion mentions x).
+   Since /repo a70801b only the selector that the query descriptor evaluates records coverage.
    Conclusions are identified by their tags: distinct Add objects are assumed to carry distinct tags. *)
 Definition set_eqb (a b : list nat) : bool :=
   forallb (fun x => memb x b) a && forallb (fun x => memb x a) b.
@@ -57,13 +61,18 @@ Definition entry_is (id : nat) (tr : bool) (c : list nat) (i : nat) (e : seen_en
   match e with (n, t, c', j) => Nat.eqb n id && Bool.eqb t tr && set_eqb c' c && Nat.eqb j i end.
 Definition seenb (id : nat) (tr : bool) (c : list nat) (i : nat) (S : store) : bool :=
   existsb (entry_is id tr c i) (seen S).
-Definition add_seen (e : seen_entry) (S : store) : store := {| mem := mem S; seen := e :: seen S; out := out S |}.
+Definition add_seen (e : seen_entry) (S : store) : store :=
+  {| mem := mem S; seen := e :: seen S; out := out S; rootsel := rootsel S |}.
 Definition update_conclusion (id i : nat) (concl : list nat) (S : store) : store :=
   match concl with
   | [] => S
-  | _ => let tr := negb (getb FLAG id S) in
-         if seenb id tr concl i S then S
-         else add_seen (id, tr, concl, i) (set DYN id (union (get DYN id S) concl) S)
+  | _ => if Nat.eqb id (rootsel S)
+         then (* `_eval_parent_` is the query descriptor: this selector decides and remembers *)
+              let tr := negb (getb FLAG id S) in
+              if seenb id tr concl i S then S
+              else add_seen (id, tr, concl, i) (set DYN id (union (get DYN id S) concl) S)
+         else (* an inner selector only proposes its conclusions (since /repo a70801b) *)
+              set DYN id (union (get DYN id S) concl) S
   end.
 
 (* `self.update_conclusion(..); yield OperationResult(bindings, self._is_false_, self); self._conclusion_.clear()` *)
@@ -134,5 +143,6 @@ Section Eval.
   Definition run (t : tree) : list (list nat * nat) :=
     rev (out (ev t None (fun ie f S =>
                            if f then S
-                           else match concl_now t S with [] => S | c => emit (c, fst ie) S end) init)).
+                           else match concl_now t S with [] => S | c => emit (c, fst ie) S end)
+                  (init_root (root_id t)))).
 End Eval.
